@@ -138,7 +138,7 @@ func finishOpts(id, tier string, seed int, evDir, repDir, known string, start ti
 		},
 	}
 	if spec != nil {
-		fo.Explanation = spec.Explanation + " The obligations listed in this file are the authoritative list of what was decided in this run: rules added in later seed rounds (shared rules of other properties, the repository-wide discipline rules err-polarity, loop-visits-all, cancel-after-use, trim-cutset, go-captures-live, shared-result, no-relock, pooled-escape, lock-copy, pure-stringer, param-backing-write) appear there with their own statements; DESIGN.md sections 1.4 and 8 say which property runs which."
+		fo.Explanation = spec.Explanation + " The obligations listed in this file are the authoritative list of what was decided in this run: rules added in later seed rounds (shared rules of other properties, the repository-wide discipline rules err-polarity, loop-visits-all, cancel-after-use, trim-cutset, go-captures-live, shared-result, no-relock, pooled-escape, lock-copy, pure-stringer, param-backing-write, loop-decode-reuse, closure-loop-var, field-backing-append, response-outlives-context, and the closed RPC surface) appear there with their own statements; DESIGN.md sections 1.4 and 8 say which property runs which."
 		fo.Exhaustive = spec.Exhaustive
 		fo.Assumptions = append(fo.Assumptions, spec.NotDecided...)
 	} else {
